@@ -245,6 +245,7 @@ def run_check(prop, tier):
     r = rng("expr")          # C01 and C12 look at the same generated population
     broken = ck.build_and_audit(["Amoco.Props.%s" % prop, "drv_expr"])
     drv = Driver("drv_expr")
+    R.limit_memory()
     t_budget = (110 if quick else 1500)
     t0 = time.time()
     corr_broken = []
@@ -253,13 +254,17 @@ def run_check(prop, tier):
     def report_oracle(kind, script, cx, action, real, model, expected, rho, decl, fails):
         """a failing input on the real code: shrink, sign, report."""
         small = script
+        act = action[0] + ("." + action[1] if action[0] in ("simplify", "simpeval") and action[1] else "")
+        shrunk = False
         if nshrunk[0] < (25 if quick else 100) and F.width(script) is not None:
             nshrunk[0] += 1
             try:
                 small = shrink(script, fails, rho)
+                shrunk = True
             except Exception:
                 small = script
-        sig = "%s:%s:%s:%s" % (prop, kind, action[0] + ("." + action[1] if action[0] in ("simplify", "simpeval") and action[1] else ""), shape(small))
+        # beyond the shrinking budget failing inputs are still reported, one line per kind and action
+        sig = "%s:%s:%s:%s" % (prop, kind, act, shape(small) if shrunk or len(script) <= 6 else "(not shrunk)")
         if len(sig) > 300:
             sig = sig[:300]
         out2, _, _ = R.run(small, action, cx)
@@ -335,8 +340,14 @@ def run_check(prop, tier):
         reqs = [{"op": "expr.run", "script": script, "action": a, "cplx": cx} for a in acts]
         models = drv.ask_many(reqs)
         nontriv = False
+        timeouts = 0
         for a, m in zip(acts, models):
+            if timeouts >= 2 or time.time() - t0 > t_budget + 40:
+                ck.count("real.skipped-after-timeouts")
+                continue
             real, decl, dirty = R.run(script, a, cx)
+            if real[0] == "timeout":
+                timeouts += 1
             ck.count("act.%s" % a[0] + ("." + a[1] if a[0] in ("simplify", "simpeval") and a[1] else ""))
             ck.count("real.%s" % (real[0] if real[0] != "ok" else "ok." + real[1][0]))
             if real[0] == "ok" and real[1][0] not in ("cst", "reg"):
